@@ -22,7 +22,8 @@ CONSTANTS MaxDefs, MaxLabels, MaxProcs,
 Types == IF Rich THEN {"COUNTER", "GAUGE", "HISTOGRAM", "SUMMARY"} ELSE {"COUNTER", "HISTOGRAM"}
 ExprKinds == IF Rich THEN {"absent", "numeric", "numeric_text", "bool", "non_numeric", "raises", "zero"}
              ELSE {"absent", "numeric", "raises", "zero"}      \* zero: the expression evaluates to exactly 0
-LabelKinds == IF Rich THEN {"static_str", "static_int", "static_bool", "expr_ok", "expr_raises"}
+LabelKinds == IF Rich THEN {"static_str", "static_int", "static_bool", "expr_ok", "expr_raises",
+                            "static_zero", "static_false"}     \* static values that happen to be falsy (0, False)
               ELSE {"static_str", "expr_ok", "expr_raises"}
 Opt == {"absent", "given"}
 
